@@ -580,7 +580,7 @@ def limit_errors_final(prog, chk):
             for sb in filtering:
                 tmap = {v: tgt for v, tgt in sw_blocks[sb]["vals"]}
                 for name, vi in vidx.items():
-                    reg = pt.reach([tmap[vi]])
+                    reg = pt.reach_flags([tmap[vi]])  # `matches!(err, A | B | C)` sets a flag that is branched on next
                     if pb in reg:
                         leak_after.append(name)
                     if R.assigns_result_variant(pt, reg, "Ok") and not R.assigns_result_variant(pt, reg, "Err") and not _returns_call_result(pt, reg):
